@@ -64,7 +64,7 @@ def _repolls(mod, name, depth):
             return True
     return False
 
-def check_sleeper_loops(mod, rep, rid, sem_p):
+def check_sleeper_loops(mod, rep, rid, sem_p, only_files=None):
     """every call to a semaphore P lies in a natural loop whose exit condition depends on an atomic load (the wake flag) or on
     values recomputed in the loop (ready times); a return value of P alone never ends the wait"""
     # the sleeping primitives form a layer (semaphore P, the cancellable wait on top of it): a static helper all of whose callers belong to the
@@ -83,6 +83,8 @@ def check_sleeper_loops(mod, rep, rid, sem_p):
                 sem_p.add(f.name); changed = True
     for fn in mod.defined.values():
         if fn.name in sem_p:
+            continue
+        if only_files and not any((fn.file or '').endswith(x) for x in only_files):
             continue
         for i in fn.real_insts():
             if i.op == 'call' and i.callee in sem_p:
